@@ -198,6 +198,8 @@ def run(ctx: Ctx) -> None:
     drv = Driver()
     try:
         miniblock.tie_all(ctx, drv, quick)
+        from . import pipeline
+        pipeline.tie_full(ctx, drv, 2000 if quick else 50000, ref=True)      # maps of definitions and of everything after them
     finally:
         drv.close()
     ctx.partial += [
